@@ -1,5 +1,5 @@
 INIT Init
 NEXT Next
-INVARIANT SizeOk
+INVARIANTS SizeOk RoundTrip MalformedRejected FieldMutantsDecided
 POSTCONDITION Written
 CHECK_DEADLOCK FALSE
